@@ -88,12 +88,26 @@ func c12Boundaries(fd protoreflect.FieldDescriptor, top bool) []c12LV {
 			}
 			out = append(out, c12LV{"len2097152", C12Val{S: "z", R: 2097152}})
 		}
+		// values that look like an encoded message / a textual encoding
+		c12EncInit()
+		enc := c12EncVals(fd, c12EncPrio)
+		if top {
+			out = append(out, enc...)
+			out = append(out, c12EncRotating(fd)...)
+		} else if len(enc) > 4 {
+			out = append(out, enc[:4]...)
+		}
 		return out
 	case protoreflect.BytesKind:
+		c12EncInit()
+		encb := c12EncVals(fd, c12EncPrio)
+		if !top && len(encb) > 4 {
+			encb = encb[:4]
+		}
 		out := []c12LV{{"empty", C12Val{}}, {"00", C12Val{X: []byte{0}}}, {"ff80", C12Val{X: []byte{0xff, 0x80}}},
 			{"len127", C12Val{X: []byte{1}, R: 127}}, {"len128", C12Val{X: []byte{1}, R: 128}}, {"len1024", C12Val{X: []byte{3}, R: 1024}},
 			{"len16384", C12Val{X: []byte{2}, R: 16384}}, {"len65536", C12Val{X: []byte{4}, R: 65536}}}
-		return out
+		return append(out, encb...)
 	case protoreflect.EnumKind:
 		vals := fd.Enum().Values()
 		var out []c12LV
@@ -384,6 +398,23 @@ var (
 	c12LenClasses = [][]int{{0}, {1, 2, 3, 5, 8, 16}, {127, 128, 129}, {1023, 1024, 1025}, {4095, 4096, 4097}, {16383, 16384, 16385}, {65535, 65536, 70000}}
 )
 
+// c12GenEncLike draws a value that looks like an encoded message: half of the time one of
+// the directed values, otherwise any value of the pool.
+func c12GenEncLike(t *rapid.T, fd protoreflect.FieldDescriptor) C12Val {
+	c12EncInit()
+	pool := c12EncPool
+	if rapid.Bool().Draw(t, "directed") {
+		pool = c12EncPrio
+	}
+	vals := c12EncVals(fd, pool)
+	if len(vals) == 0 {
+		return C12Val{}
+	}
+	// two small draws: close to uniform over the pool
+	g := (len(vals) + 7) / 8
+	return vals[(rapid.IntRange(0, g-1).Draw(t, "encgroup")*8+c12Gen8.Draw(t, "enc"))%len(vals)].v
+}
+
 func c12GenScalar(t *rapid.T, fd protoreflect.FieldDescriptor) C12Val {
 	mode := rapid.IntRange(0, 3).Draw(t, "mode")
 	bnd := func() C12Val {
@@ -394,13 +425,16 @@ func c12GenScalar(t *rapid.T, fd protoreflect.FieldDescriptor) C12Val {
 	case protoreflect.BoolKind:
 		return C12Val{B: c12GenBool.Draw(t, "b")}
 	case protoreflect.StringKind:
-		switch mode {
-		case 0:
+		// 0-1 boundary, 2-3 short ASCII, 4 unicode, 5-6 length class, 7 looks like an encoding
+		switch c12Gen8.Draw(t, "strmode") {
+		case 0, 1:
 			return bnd()
-		case 1:
+		case 2, 3:
 			return C12Val{S: c12GenAscii.Draw(t, "s")}
-		case 2:
+		case 4:
 			return C12Val{S: strings.ToValidUTF8(c12GenUni.Draw(t, "s"), "?")}
+		case 7:
+			return c12GenEncLike(t, fd)
 		}
 		// a string of a drawn length class (0, 1..16, around 128, 1024, 4096, 16384, >= 65535)
 		cls := c12LenClasses[rapid.IntRange(0, len(c12LenClasses)-1).Draw(t, "lenclass")]
@@ -416,6 +450,9 @@ func c12GenScalar(t *rapid.T, fd protoreflect.FieldDescriptor) C12Val {
 	case protoreflect.BytesKind:
 		if mode == 0 {
 			return bnd()
+		}
+		if c12Gen8.Draw(t, "bytesenc") == 7 {
+			return c12GenEncLike(t, fd)
 		}
 		if mode == 3 {
 			cls := c12LenClasses[rapid.IntRange(0, len(c12LenClasses)-1).Draw(t, "lenclass")]
